@@ -201,7 +201,24 @@ class Rewriter(ast.NodeTransformer):
         node.test = _rt("truth", node.test)
         return node
 
+    @staticmethod
+    def _fold_continue(body):
+        """`if c: continue` followed by the rest of a loop body  ==  `if not c: <rest>` (same semantics); in that shape a rest made of
+        plain assignments can run predicated (merged) instead of forking once per iteration"""
+        for i, s in enumerate(body):
+            if (isinstance(s, ast.If) and not s.orelse and len(s.body) == 1 and isinstance(s.body[0], ast.Continue) and i + 1 < len(body)):
+                rest = Rewriter._fold_continue(body[i + 1:])
+                new = ast.If(test=ast.UnaryOp(op=ast.Not(), operand=s.test), body=rest, orelse=[])
+                return body[:i] + [ast.copy_location(new, s)]
+        return body
+
+    def visit_For(self, node):
+        node.body = self._fold_continue(node.body)
+        self.generic_visit(node)
+        return node
+
     def visit_While(self, node):
+        node.body = self._fold_continue(node.body)
         self.generic_visit(node)
         node.test = _rt("truth", node.test)
         return node
